@@ -4,7 +4,9 @@ GROUPS = [
  dict(name='size_roundtrip', cls='P', tu='C06_parse_size.c', entry='h_size_roundtrip', dfcc=False,
       functions=['encode_size'], what='parse_size(encode_size(s)) == s for 0<=s<=1275 (loop-free, real bodies)', timeout=120),
 ]
-META = {}
+META = {'cex': {'tu': 'C06_iff_rfc.c', 'entry': 'h_iff_rfc', 'unwind': 10, 'timeout': 1200,
+                'defines': ['-DVERIF_LEN_MAX=8', '-DVERIF_IFF_CASE(d,len,sd)=(((d)[0]&3)!=3 || len<2 || ((d)[1]&0x3F)<=6)'],
+                'bounds': 'packets of <= 8 bytes, <= 6 frames, both framings'}}
 
 # opus_packet_parse_impl: the contract is enforced per syntactic sub-case of (TOC code, len>=2, count byte flags,
 # framing); group parse_cases_exhaustive proves that the sub-cases cover every input.
